@@ -376,7 +376,7 @@ def make_fn(rt: Runtime, c: Cb, with_self: bool):
             rt.lines.append(f"S {tid} {ph} {c.id} {rt.fmt_res(r)}")
         if rz is not None:
             raise UserExc(rz)
-        rt.lines.append(f"E {tid} {ph} {c.id}")
+        rt.lines.append(f"E {tid} {ph} {c.id} {rp(POOL[ret])}")
         return POOL[ret]
 
     async def _abody(kw):
@@ -394,7 +394,7 @@ def make_fn(rt: Runtime, c: Cb, with_self: bool):
             await asyncio.sleep(0)
         if rz is not None:
             raise UserExc(rz)
-        rt.lines.append(f"E {tid} {ph} {c.id}")
+        rt.lines.append(f"E {tid} {ph} {c.id} {rp(POOL[ret])}")
         return POOL[ret]
 
     ns = {"_body": _body, "_abody": _abody}
